@@ -4,7 +4,7 @@
    The states are NOT sent one by one: both sides enumerate them from the same code (n = 0 .. 2^k * B^m - 1). *)
 From Coq Require Import List Ascii String Bool Arith NArith PrimFloat.
 From Verif Require Import Base.Result Base.Str Base.Sexp Base.PyDict Model.Types Model.Domain Model.Exec Model.KeyedState
-  Spec.Pddl Spec.Grammar Spec.Subst Corr.Common Corr.Core.
+  Spec.Pddl Spec.Grammar Spec.Subst Spec.EraseForall Corr.Common Corr.Core.
 Import ListNotations.
 Open Scope string_scope.
 Open Scope list_scope.
@@ -84,15 +84,8 @@ Definition spec_answer (w : world) (d : sdomain) (p : probe) : option (obs bool)
 (* ---------- wave 3: an Operator built WITHOUT an object table (problem_objects=None; not the same input as the empty table {}) ----------
    The library's contract there (pddl_operator.py / grounded_precondition.py: "Did not receive the problem objects so cannot validate
    the universal preconditions"): a universal condition counts as true, everything else is evaluated as usual.  Stated on the spec's
-   own formulas: the precondition with every forall replaced by the empty conjunction. *)
-Fixpoint erase_forall (f : form) : form :=
-  match f with
-  | FAnd l => FAnd (map erase_forall l)
-  | FOr l => FOr (map erase_forall l)
-  | FForall _ _ _ => FAnd []
-  | _ => f
-  end.
-
+   own formulas: the precondition with every forall replaced by the empty conjunction (Spec.EraseForall.erase_forall; theorem
+   C02_applicable_noobj: that is what the model computes). *)
 Definition model_app_none (w : world) (d : mdomain) (p : probe) : obs bool :=
   obs_of_result
     (match dget (d_actions d) (p_action p) with
